@@ -964,6 +964,13 @@ class Grammar_generate_verified(Contract):
             src_ident = copies[0][0].ident if len(copies) == 1 else None       # identity of the generic element that was copied
             from_used = src_ident is not None and z3.is_app(src_ident) and src_ident.num_args() == 2 and z3.eq(src_ident.arg(0), used.ghost["seq"])
             out.append(("sources_are_deep_copies_of_the_argument_trees", z3.BoolVal(bool(from_used))))
+            # the copy recorded as a source keeps what the argument tree itself was computed from (its own sources) and its text
+            # (its children): a nested generated field stays traceable to its argument values
+            how = cx.ghost.get("deepcopy_args", [])
+            if len(how) != 1:
+                raise Unsupported("the arguments of the copy recorded as a source cannot be read")
+            full = all(how[0].get(k) in (True, "absent") for k in ("copy_children", "copy_params"))
+            out.append(("recorded_arguments_keep_their_own_sources_and_children", z3.BoolVal(bool(full))))
         return out
 
     def ensures_raise(self, cx, a, exc):
@@ -1048,6 +1055,43 @@ class Grammar_derive_generator_output(Contract):
         l = heap_list(cx, "regenerated_children", cx.int("n_regenerated", lo=0), "DerivationTree", tree_contracts.CHILD_FIELDS, fresh=True)
         cx.ghost["regenerated"] = (a["tree"], a["tree"].fields.get("_sources"), l)
         return l
+
+
+@register
+class Grammar_derive_generator_output_verified(Contract):
+    """C16: re-running the generator of a generated node returns the children of the tree Grammar.generate produced for the
+    node's own symbol from the node's recorded sources -- and nothing else: when generate raises (a value that does not fit the
+    rule), no list is returned in its place"""
+    target = f"{GRAMMAR}:Grammar.derive_generator_output"
+    key = f"{GRAMMAR}:Grammar.derive_generator_output@verified"
+    properties = ("C16",)
+    float_mode = "real"
+
+    def inputs(self, cx):
+        g = grammar_obj(cx)
+        t = parent_tree(cx, "tree")
+        sym = nonterminal_symbol(cx, "tree.symbol")
+        sym.fields["is_non_terminal"] = True
+        sym.fields["is_terminal"] = False
+        t.fields["_symbol"] = sym
+        t.fields["_sources"] = kids_list(cx, z3.Const("recorded_sources", IS), "sources")
+        cx.ghost["inline_ok"] = set(tree_contracts.INLINE_OK) | {"language/tree.py:DerivationTree.nonterminal"}
+        return {"self": g, "tree": t}
+
+    def ensures(self, cx, a, r):
+        gen = cx.ghost.get("generated")
+        if gen is None:
+            return [("a_list_is_returned_only_for_a_tree_the_generator_produced", z3.BoolVal(False))]
+        made, pseq = gen
+        t = a["tree"]
+        return [("returns_the_children_of_the_generated_tree", z3.BoolVal(r is made.fields.get("_children"))),
+                ("generated_under_the_nodes_own_symbol", z3.BoolVal(made.fields.get("_symbol") is t.fields["_symbol"])),
+                ("generated_from_the_recorded_sources", pseq == t.fields["_sources"].ghost["seq"])]
+
+    def ensures_raise(self, cx, a, exc):
+        # whatever generate raises travels on (FandangoParseError for a value that does not fit the rule; TypeError for a
+        # value of another type): nothing is required of the exceptional exits
+        return []
 
 
 @register
